@@ -104,6 +104,10 @@ class Env:
         if m == "orderby":
             kw = {"order": {"ASC": Order.asc, "DESC": Order.desc}[c["dir"]]} if c.get("dir") else {}
             return tgt.orderby(*[self.term(t) for t in c["terms"]], **kw)
+        if m == "orderbystr":
+            return tgt.orderby(c["name"])
+        if m == "groupbystr":
+            return tgt.groupby(c["name"])
         if m == "join":
             how = {"": JoinType.inner, "LEFT": JoinType.left, "CROSS": JoinType.cross}[c.get("how", "")]
             j = tgt.join(self.src[c["item"]], how)
